@@ -35,6 +35,11 @@ def run(ctx):
     ss.require_clean()
     for inv in ss.invariant_violated:
         ctx.violation({"tlc_counterexample": ss.counterexample()[-1:]}, "TLC refuted law %s of SearchSplit.tla" % inv)
+    al = ctx.tlc("P_Align", "SPECIFICATION Spec\nCONSTANTS\n  MaxLen = %d\n  Words = %d\nINVARIANT NeverFails\nINVARIANT EqualLength\nINVARIANT NothingLost\n"
+                 "INVARIANT AgreeingPrefix\nCHECK_DEADLOCK FALSE\n" % ((4, 2) if ctx.quick() else (5, 3)), timeout=3000, name="P_Align")
+    al.require_clean()
+    for inv in al.invariant_violated:
+        ctx.violation({"tlc_counterexample": al.counterexample()[-1:]}, "TLC refuted law %s of Align.tla" % inv)
     W = core.run_cases(ctx, "harness.props.c13", "export_words", [{}], nproc=1)[0]
     order = W["order"]
     cases = core.replay_cases(ctx)
@@ -197,6 +202,28 @@ def run(ctx):
             if split_drift <= 5:
                 ctx.note_drift("SearchSplit", {"text": cases[sidx[t[1]]]["text"], "languages": cases[sidx[t[1]]]["languages"], "clause": t[3], "model": t[4],
                                                "observed": {k: v for k, v in srecs[t[1]].items() if k != "tid"}})
+    # ---- refinement of the word alignment (Align.tla): the calls made while searching, and every pair of word lists
+    # of a small domain put through the real method
+    arecs, aidx = [], []
+    for i, (c, r) in enumerate(zip(cases, results)):
+        for a_ in r.get("aligns") or []:
+            arecs.append(dict(a_, tid=len(arecs)))
+            aidx.append(i)
+    n_real_aligns = len(arecs)
+    if not ctx.replay:
+        parts = 8
+        for chunk_ in core.run_cases(ctx, "harness.lib", "align_small_domain", [{"maxlen": 3 if ctx.quick() else 4, "words": 3, "part": k, "parts": parts} for k in range(parts)], nproc=parts):
+            for a_ in chunk_:
+                arecs.append(dict(a_, tid=len(arecs)))
+                aidx.append(-1)
+    align_drift = 0
+    if arecs:
+        at_, _g = core.validate_traces(ctx, "T_Align", "SPECIFICATION TSpec\nPOSTCONDITION Consumed\nCHECK_DEADLOCK FALSE\n", arecs)
+        for t in at_["REJECT"]:
+            align_drift += 1
+            if align_drift <= 5:
+                ctx.note_drift("Align", {"text": cases[aidx[t[1]]]["text"] if aidx[t[1]] >= 0 else "(small domain)", "clause": t[3], "model": t[4],
+                                         "observed": {k: v for k, v in arecs[t[1]].items() if k != "tid"}})
     records = []
     for i, (c, r) in enumerate(zip(cases, results)):
         records.append({"tid": i, "exc": r["exc"], "isnone": r["isnone"], "islist": r["islist"], "withlang": bool(c["withlang"]),
@@ -221,6 +248,8 @@ def run(ctx):
         "chunking_calls_validated": len(crecs), "chunking_drift": chunk_drift,
         "split_events_validated": {"split_by": sum(1 for x in srecs if x["kind"] == "splitby"), "choose_best_split": sum(1 for x in srecs if x["kind"] == "best"), "set_relative_base": sum(1 for x in srecs if x["kind"] == "relbase"),
                                    "with_more_than_three_pieces": sum(1 for x in srecs if x["kind"] == "splitby" and x["n"] > 3)}, "split_drift": split_drift,
+        "alignment_calls_validated": {"while_searching": n_real_aligns, "with_lists_of_different_length": sum(1 for a_ in arecs[:n_real_aligns] if len(a_["o"]) != len(a_["s"])),
+                                      "small_domain_pairs": len(arecs) - n_real_aligns}, "alignment_drift": align_drift,
         "language_choices_validated": sum(len(r.get("detect", [])) for r in results),
         "evaluations": len(cases), "distinct_nontrivial": len({(c["text"], repr(c["languages"])) for c, r in zip(cases, results) if r["hits"]}),
         "rule": "case = (text <= 300 chars, languages or autodetection, RELATIVE_BASE, add_detected_language); non-trivial = distinct call returning hits",
